@@ -365,7 +365,7 @@ def run(ctx):
         raise vlib.Inconclusive("vacuous: no daily reply with data in the recorded traces")
 
     # Schedules.
-    nh, nhr = (150, 60) if ctx.quick else (600, 250)
+    nh, nhr = (150, 60) if ctx.quick else (1500, 500)
     hrows, hbad, pairs = schedules(ctx, nh, race=False)
     rrows, rbad, rpairs = schedules(ctx, nhr, race=True)
     if hrows and rrows and pairs + rpairs == 0:
